@@ -229,7 +229,7 @@ class ClusterSuite(Suite):
     evals = {'mismatches': 'cmismatches'}
     shard_size = 40
 
-    def __init__(self, evals=None, quick=(150, 120), thorough=(3000, 600), quiet_rounds=0, convergent_cfg=False):
+    def __init__(self, evals=None, quick=(150, 120), thorough=(400, 300), quiet_rounds=0, convergent_cfg=False):
         self._clock = False
         self.quiet_rounds = quiet_rounds
         self.convergent_cfg = convergent_cfg
